@@ -16,6 +16,9 @@
  *       output: "<status>" + dump + per query
  *         " q<addr>=<kv st>[:<kphys>]/<hw st>[:<kphys>]"  through MAP_KV_PHYS / MAP_HW (+ conversion to KPHYSADDR)
  *         " p<addr>=<st>[:<kvaddr>]/<st>[:<kphys>]"       through MAP_KPHYS_DIRECT and back through MAP_KV_PHYS
+ *   ia32dm <vmalloc_start|->   white box: the map part of sys_ia32 for Linux (temporary layout, final map,
+ *       set_linux_directmap with VMALLOC_START found through vmlist, or not at all); output: status + dump
+ *   lindm <first> <last> <off>  white box: arm.c map_direct on a fresh system; output: status + dump
  *   cell = <as>:<addr>=<value> | <as>:<addr>!<status> | <as>:<addr>~<len> (zero-filled region)
  *
  * Dump: "M<i>=<endoff>:<meth>,...;" for every non-NULL map ("M<i>=-;" when NULL),
@@ -25,6 +28,32 @@
 #include "common.h"
 #include <endian.h>
 #include "addrxlat-priv.h"
+/* white box for the static layout functions of ia32.c and arm.c (both are left out of the
+ * library sources this driver is linked with) */
+#include "src/addrxlat/ia32.c"
+#undef PGD_PSE_HIGH_SHIFT
+#undef PGD_PSE_HIGH_BITS
+#undef PGD_PSE_HIGH_MASK
+#undef pgd_pse_high
+#undef PHYSADDR_BITS_MAX_NONPAE
+#undef PHYSADDR_MASK_NONPAE
+#undef PHYSADDR_BITS_MAX_PAE
+#undef PHYSADDR_MASK_PAE
+#undef _PAGE_BIT_PRESENT
+#undef _PAGE_BIT_PSE
+#undef _PAGE_PRESENT
+#undef _PAGE_PSE
+#undef VIRTADDR_MAX
+#undef PAGE_SHIFT
+#undef PAGE_MASK
+#undef PAGE_SHIFT_2M
+#undef PAGE_MASK_2M
+#undef PAGE_SHIFT_4M
+#undef PAGE_MASK_4M
+#undef LINUX_DIRECTMAP
+#undef XEN_DIRECTMAP
+#define get_linux_pgtroot arm_get_linux_pgtroot
+#include "src/addrxlat/arm.c"
 
 static long long sx(const char *s)
 {
@@ -70,13 +99,15 @@ static addrxlat_status get_page(const addrxlat_cb_t *cb, addrxlat_buffer_t *buf)
 		return ADDRXLAT_OK;
 	}
 	memset(cells[i].buf, 0, sizeof cells[i].buf);
-	if (ptewidth == 4) {
-		uint32_t v = (uint32_t)cells[i].val;
-		if (byte_order == 0) v = htobe32(v); else if (byte_order == 1) v = htole32(v);
+	if (byte_order != 0) {
+		/* little endian (host is little endian): one encoding serves 32- and 64-bit reads */
+		uint64_t v = htole64(cells[i].val);
+		memcpy(cells[i].buf, &v, 8);
+	} else if (ptewidth == 4) {
+		uint32_t v = htobe32((uint32_t)cells[i].val);
 		memcpy(cells[i].buf, &v, 4);
 	} else {
-		uint64_t v = cells[i].val;
-		if (byte_order == 0) v = htobe64(v); else if (byte_order == 1) v = htole64(v);
+		uint64_t v = htobe64(cells[i].val);
 		memcpy(cells[i].buf, &v, 8);
 	}
 	buf->ptr = cells[i].buf;
@@ -197,6 +228,14 @@ static addrxlat_status reg_cb(const addrxlat_cb_t *cb, const char *name, addrxla
 { return lookup_cb(cb, 'R', name, val); }
 static addrxlat_status num_cb(const addrxlat_cb_t *cb, const char *name, addrxlat_addr_t *val)
 { return lookup_cb(cb, 'N', name, val); }
+static addrxlat_status sizeof_cb(const addrxlat_cb_t *cb, const char *name, addrxlat_addr_t *val)
+{ return lookup_cb(cb, 'Z', name, val); }
+static addrxlat_status offsetof_cb(const addrxlat_cb_t *cb, const char *obj, const char *elem, addrxlat_addr_t *val)
+{
+	char nm[128];
+	snprintf(nm, sizeof nm, "%s.%s", obj, elem);
+	return lookup_cb(cb, 'O', nm, val);
+}
 
 static void dump_sys(const addrxlat_sys_t *sys);
 
@@ -228,7 +267,7 @@ static void do_os(char **tok, int n)
 	addrxlat_ctx_t *ctx;
 	addrxlat_cb_t *cb;
 	addrxlat_sys_t *sys;
-	addrxlat_opt_t opts[8];
+	addrxlat_opt_t opts[12];
 	addrxlat_fulladdr_t root;
 	unsigned optc = 0;
 	static char *celltok[MAXCELLS];
@@ -237,10 +276,21 @@ static void do_os(char **tok, int n)
 	addrxlat_status st;
 
 	nnames = 0; caps_mask = 0; byte_order = 1; ptewidth = 8;
-	addrxlat_opt_arch(&opts[optc++], "x86_64");
+	{
+		const char *arch = "x86_64";
+		for (i = 0; i < n; ++i)
+			if (!strncmp(tok[i], "arch=", 5)) arch = tok[i] + 5;
+		addrxlat_opt_arch(&opts[optc++], arch);
+	}
 	for (i = 0; i < n; ++i) {
 		char *t = tok[i];
-		if (!strncmp(t, "os=", 3)) {
+		if (!strncmp(t, "arch=", 5)) ;
+		else if (!strncmp(t, "ps=", 3)) {
+			if (t[3] != '-') addrxlat_opt_page_shift(&opts[optc++], hx(t + 3));
+		} else if (!strncmp(t, "pbits=", 6)) {
+			if (t[6] != '-') addrxlat_opt_phys_bits(&opts[optc++], hx(t + 6));
+		} else if (!strncmp(t, "fmt=", 4) || !strncmp(t, "fs=", 3) || !strncmp(t, "tg=", 3)) ;
+		else if (!strncmp(t, "os=", 3)) {
 			if (t[3] == 'l') addrxlat_opt_os_type(&opts[optc++], "linux");
 			else if (t[3] == 'x') addrxlat_opt_os_type(&opts[optc++], "xen");
 		} else if (!strncmp(t, "ver=", 4)) {
@@ -265,7 +315,7 @@ static void do_os(char **tok, int n)
 				((m & 4) ? ADDRXLAT_CAPS(ADDRXLAT_KVADDR) : 0);
 		} else if (!strncmp(t, "bo=", 3)) byte_order = (int)hx(t + 3);
 		else if (!strncmp(t, "rp=", 3) || !strncmp(t, "nf=", 3) || !strncmp(t, "dm=", 3)) ;
-		else if ((t[0] == 'S' || t[0] == 'R' || t[0] == 'N') && t[1] == ':' && nnames < 64) {
+		else if ((t[0] == 'S' || t[0] == 'R' || t[0] == 'N' || t[0] == 'Z' || t[0] == 'O') && t[1] == ':' && nnames < 64) {
 			char *e;
 			names[nnames].kind = t[0]; names[nnames].name = t + 2;
 			if ((e = strchr(t + 2, '='))) { *e++ = 0; names[nnames].err = 0; names[nnames].val = hx(e); }
@@ -282,6 +332,7 @@ static void do_os(char **tok, int n)
 	cb = addrxlat_ctx_add_cb(ctx);
 	cb->priv = ctx; cb->get_page = get_page; cb->read_caps = read_caps;
 	cb->sym_value = sym_cb; cb->reg_value = reg_cb; cb->num_value = num_cb;
+	cb->sym_sizeof = sizeof_cb; cb->sym_offsetof = offsetof_cb;
 	sys = addrxlat_sys_new();
 	st = addrxlat_sys_os_init(sys, ctx, optc, opts);
 	printf("%d", (int)st);
@@ -304,6 +355,47 @@ static void do_os(char **tok, int n)
 				xlat_via(ctx, sys, ADDRXLAT_SYS_MAP_KV_PHYS, ADDRXLAT_KPHYSADDR, r1, &s2, &r2);
 				printf("/%d", s2);
 				if (!s2) printf(":%" PRIx64, r2);
+			}
+		}
+	}
+	/* every range of the forward and of the reverse map: both ends, one page inside, the middle */
+	{
+		static const addrxlat_sys_map_t which[2] = { ADDRXLAT_SYS_MAP_KV_PHYS, ADDRXLAT_SYS_MAP_KPHYS_DIRECT };
+		int w;
+		for (w = 0; w < 2; ++w) {
+			addrxlat_map_t *map = addrxlat_sys_get_map(sys, which[w]);
+			size_t j, nr = map ? addrxlat_map_len(map) : 0;
+			const addrxlat_range_t *r = map ? addrxlat_map_ranges(map) : NULL;
+			uint64_t first = 0;
+			for (j = 0; j < nr && j < 16; ++j) {
+				uint64_t e = r[j].endoff, pts[5];
+				int np = 0, k;
+				if (r[j].meth >= 0) {
+					pts[np++] = first; pts[np++] = first + e;
+					if (e >= 0x2000) { pts[np++] = first + 0x1000; pts[np++] = first + e - 0x1000; }
+					pts[np++] = first + e / 2;
+				}
+				for (k = 0; k < np; ++k) {
+					uint64_t a = pts[k], r1, r2; int s1, s2;
+					if (w == 0) {
+						xlat_via(ctx, sys, ADDRXLAT_SYS_MAP_KV_PHYS, ADDRXLAT_KPHYSADDR, a, &s1, &r1);
+						xlat_via(ctx, sys, ADDRXLAT_SYS_MAP_HW, ADDRXLAT_KPHYSADDR, a, &s2, &r2);
+						printf(" q%" PRIx64 "=%d", a, s1);
+						if (!s1) printf(":%" PRIx64, r1);
+						printf("/%d", s2);
+						if (!s2) printf(":%" PRIx64, r2);
+					} else {
+						xlat_via(ctx, sys, ADDRXLAT_SYS_MAP_KPHYS_DIRECT, ADDRXLAT_KVADDR, a, &s1, &r1);
+						printf(" p%" PRIx64 "=%d", a, s1);
+						if (!s1) {
+							printf(":%" PRIx64, r1);
+							xlat_via(ctx, sys, ADDRXLAT_SYS_MAP_KV_PHYS, ADDRXLAT_KPHYSADDR, r1, &s2, &r2);
+							printf("/%d", s2);
+							if (!s2) printf(":%" PRIx64, r2);
+						}
+					}
+				}
+				first += e + 1;
 			}
 		}
 	}
@@ -357,6 +449,72 @@ static void dump_sys(const addrxlat_sys_t *sys)
 			printf(" m%u=?%d", i, (int)m->kind);
 		}
 	}
+}
+
+static void do_ia32dm(char **tok, int n)
+{
+	addrxlat_ctx_t *ctx;
+	addrxlat_cb_t *cb;
+	addrxlat_sys_t *sys = addrxlat_sys_new();
+	struct os_init_data ctl;
+	addrxlat_map_t *newmap;
+	addrxlat_range_t range;
+	addrxlat_status st;
+	static char c1[64], c2[64];
+	char *ct[2] = { c1, c2 };
+
+	nnames = 0; caps_mask = ADDRXLAT_CAPS(ADDRXLAT_KVADDR); byte_order = 1; ptewidth = 8; ncells = 0;
+	if (n >= 1 && strcmp(tok[0], "-")) {
+		/* VMALLOC_START is found through "vmlist": *(u32 *)vmlist -> vm_struct, ->addr */
+		names[0].kind = 'S'; names[0].name = "vmlist"; names[0].err = 0; names[0].val = 0xc0001000;
+		names[1].kind = 'O'; names[1].name = "vm_struct.addr"; names[1].err = 0; names[1].val = 4;
+		nnames = 2;
+		strcpy(c1, "2:c0001000=c0002000");
+		snprintf(c2, sizeof c2, "2:c0002004=%s", tok[0]);
+		parse_cells(ct, 2);
+	}
+	ctx = addrxlat_ctx_new();
+	cb = addrxlat_ctx_add_cb(ctx);
+	cb->priv = ctx; cb->get_page = get_page; cb->read_caps = read_caps;
+	cb->sym_value = sym_cb; cb->reg_value = reg_cb; cb->num_value = num_cb;
+	cb->sym_sizeof = sizeof_cb; cb->sym_offsetof = offsetof_cb;
+	memset(&ctl, 0, sizeof ctl);
+	ctl.sys = sys; ctl.ctx = ctx; ctl.os_type = OS_LINUX;
+	st = sys_set_layout(&ctl, ADDRXLAT_SYS_MAP_KV_PHYS, linux_directmap);
+	if (st == ADDRXLAT_OK) {
+		range.meth = ADDRXLAT_SYS_METH_PGT;
+		range.endoff = UINT32_MAX;
+		newmap = internal_map_new();
+		internal_map_set(newmap, 0, &range);
+		st = set_linux_directmap(&ctl, newmap);
+		if (st == ADDRXLAT_OK) {
+			internal_map_decref(sys->map[ADDRXLAT_SYS_MAP_KV_PHYS]);
+			sys->map[ADDRXLAT_SYS_MAP_KV_PHYS] = newmap;
+		} else
+			internal_map_decref(newmap);
+	}
+	printf("%d", (int)st);
+	dump_sys(sys);
+	putchar('\n');
+	addrxlat_sys_decref(sys);
+	addrxlat_ctx_decref(ctx);
+}
+
+static void do_lindm(char **tok, int n)
+{
+	addrxlat_ctx_t *ctx = addrxlat_ctx_new();
+	addrxlat_sys_t *sys = addrxlat_sys_new();
+	struct os_init_data ctl;
+	addrxlat_status st;
+	if (n < 3) { puts("BADCASE"); return; }
+	memset(&ctl, 0, sizeof ctl);
+	ctl.sys = sys; ctl.ctx = ctx;
+	st = map_direct(&ctl, hx(tok[0]), hx(tok[1]), (addrxlat_off_t)sx(tok[2]));
+	printf("%d", (int)st);
+	dump_sys(sys);
+	putchar('\n');
+	addrxlat_sys_decref(sys);
+	addrxlat_ctx_decref(ctx);
 }
 
 static void do_lay(char **tok, int n)
@@ -417,6 +575,10 @@ int main(int argc, char **argv)
 			do_scan(tok + 1, n - 1);
 		else if (n >= 2 && !strcmp(tok[0], "os"))
 			do_os(tok + 1, n - 1);
+		else if (n >= 2 && !strcmp(tok[0], "ia32dm"))
+			do_ia32dm(tok + 1, n - 1);
+		else if (n >= 2 && !strcmp(tok[0], "lindm"))
+			do_lindm(tok + 1, n - 1);
 		else
 			puts("BADCASE");
 	}
